@@ -160,3 +160,244 @@ Example typ_sen_wf_setidx_hub_kinds : wf_setidx_b typ_sen_schema t_hub d_kinds =
 Proof. vm_compute. reflexivity. Qed.
 Example typ_sen_wf_cunique_devx_rank : wf_cunique_b typ_sen_schema t_devx t_rank = true.
 Proof. vm_compute. reflexivity. Qed.
+
+(* ---- store families: one parent store with several child stores, plain and Extended(), in every registration order
+   (harness/cmd/storageharness/store_c03f.go: c03famXP c03famPX c03famPP c03famXPP c03famPXP c03famPPX c03famXPs).
+   BaseStore.DeleteById walks the child stores in registration order and runs the delete constraints of every child store
+   that finds the entity (an extended one finds every entity of the parent); in the store machine this is children_delete
+   over children_of, so the family shapes are ordinary schemas and every C03 theorem applies to the indexes checked below.
+   The text between the two markers is printed by "storageharness store_c03f_coq" from the wirings the harness runs
+   (schemas as derived by the wiring script) and compared with this file by checks/c03.py on every run. *)
+(* BEGIN generated by storageharness store_c03f_coq *)
+Definition fm_code : name := [99;111;100;101].
+Definition fm_d : name := [100].
+Definition fm_k : name := [107].
+Definition fm_labels : name := [108;97;98;101;108;115].
+Definition fm_memo : name := [109;101;109;111].
+Definition fm_name : name := [110;97;109;101].
+Definition fm_nick : name := [110;105;99;107].
+Definition fm_o : name := [111].
+Definition fm_owner : name := [111;119;110;101;114].
+Definition fm_p : name := [112].
+Definition fm_pc : name := [112;99].
+Definition fm_pd : name := [112;100].
+Definition fm_pds : name := [112;100;115].
+Definition fm_ps : name := [112;115].
+Definition fm_px : name := [112;120].
+Definition fm_roles : name := [114;111;108;101;115].
+Definition fm_skills : name := [115;107;105;108;108;115].
+Definition fm_title : name := [116;105;116;108;101].
+Definition fm_x : name := [120].
+
+Definition c03famXP_schema : schema :=
+  [ mkSdef fm_p None false [(fm_name, false); (fm_nick, true); (fm_memo, true)] [fm_roles; fm_skills]
+      [CUnique fm_name false; CSetIdx fm_roles; CUnique fm_nick true] [];
+    mkSdef fm_px (Some fm_p) true [(fm_x, true)] []
+      [CUnique fm_x true] [];
+    mkSdef fm_pc (Some fm_p) false [(fm_k, true); (fm_code, false)] []
+      [CUnique fm_k true; CUnique fm_code false] [] ].
+Example c03famXP_wf_unique_p_name : wf_unique_b c03famXP_schema fm_p fm_name = true.
+Proof. vm_compute. reflexivity. Qed.
+Example c03famXP_wf_setidx_p_roles : wf_setidx_b c03famXP_schema fm_p fm_roles = true.
+Proof. vm_compute. reflexivity. Qed.
+Example c03famXP_wf_unique_p_nick : wf_unique_b c03famXP_schema fm_p fm_nick = true.
+Proof. vm_compute. reflexivity. Qed.
+Example c03famXP_wf_cunique_px_x : wf_cunique_b c03famXP_schema fm_px fm_x = true.
+Proof. vm_compute. reflexivity. Qed.
+Example c03famXP_wf_cunique_pc_k : wf_cunique_b c03famXP_schema fm_pc fm_k = true.
+Proof. vm_compute. reflexivity. Qed.
+Example c03famXP_wf_cunique_pc_code : wf_cunique_b c03famXP_schema fm_pc fm_code = true.
+Proof. vm_compute. reflexivity. Qed.
+
+Definition c03famPX_schema : schema :=
+  [ mkSdef fm_p None false [(fm_name, false); (fm_nick, true); (fm_memo, true)] [fm_roles; fm_skills]
+      [CUnique fm_name false; CSetIdx fm_roles; CUnique fm_nick true] [];
+    mkSdef fm_pc (Some fm_p) false [(fm_k, true); (fm_code, false)] []
+      [CUnique fm_k true; CUnique fm_code false] [];
+    mkSdef fm_px (Some fm_p) true [(fm_x, true)] []
+      [CUnique fm_x true] [] ].
+Example c03famPX_wf_unique_p_name : wf_unique_b c03famPX_schema fm_p fm_name = true.
+Proof. vm_compute. reflexivity. Qed.
+Example c03famPX_wf_setidx_p_roles : wf_setidx_b c03famPX_schema fm_p fm_roles = true.
+Proof. vm_compute. reflexivity. Qed.
+Example c03famPX_wf_unique_p_nick : wf_unique_b c03famPX_schema fm_p fm_nick = true.
+Proof. vm_compute. reflexivity. Qed.
+Example c03famPX_wf_cunique_pc_k : wf_cunique_b c03famPX_schema fm_pc fm_k = true.
+Proof. vm_compute. reflexivity. Qed.
+Example c03famPX_wf_cunique_pc_code : wf_cunique_b c03famPX_schema fm_pc fm_code = true.
+Proof. vm_compute. reflexivity. Qed.
+Example c03famPX_wf_cunique_px_x : wf_cunique_b c03famPX_schema fm_px fm_x = true.
+Proof. vm_compute. reflexivity. Qed.
+
+Definition c03famPP_schema : schema :=
+  [ mkSdef fm_p None false [(fm_name, false); (fm_nick, true); (fm_memo, true)] [fm_roles; fm_skills]
+      [CSetIdx fm_roles; CUnique fm_name false; CUnique fm_nick true] [];
+    mkSdef fm_pd (Some fm_p) false [(fm_d, true)] []
+      [CUnique fm_d true] [];
+    mkSdef fm_pc (Some fm_p) false [(fm_k, true); (fm_code, false)] []
+      [CUnique fm_code false; CUnique fm_k true] [] ].
+Example c03famPP_wf_setidx_p_roles : wf_setidx_b c03famPP_schema fm_p fm_roles = true.
+Proof. vm_compute. reflexivity. Qed.
+Example c03famPP_wf_unique_p_name : wf_unique_b c03famPP_schema fm_p fm_name = true.
+Proof. vm_compute. reflexivity. Qed.
+Example c03famPP_wf_unique_p_nick : wf_unique_b c03famPP_schema fm_p fm_nick = true.
+Proof. vm_compute. reflexivity. Qed.
+Example c03famPP_wf_cunique_pd_d : wf_cunique_b c03famPP_schema fm_pd fm_d = true.
+Proof. vm_compute. reflexivity. Qed.
+Example c03famPP_wf_cunique_pc_code : wf_cunique_b c03famPP_schema fm_pc fm_code = true.
+Proof. vm_compute. reflexivity. Qed.
+Example c03famPP_wf_cunique_pc_k : wf_cunique_b c03famPP_schema fm_pc fm_k = true.
+Proof. vm_compute. reflexivity. Qed.
+
+Definition c03famXPP_schema : schema :=
+  [ mkSdef fm_o None false [(fm_title, false)] [fm_labels]
+      [CUnique fm_title false; CSetIdx fm_labels; CFkCascade fm_p fm_owner CascDelete] [];
+    mkSdef fm_p None false [(fm_name, false); (fm_nick, true); (fm_memo, true); (fm_owner, false)] [fm_roles; fm_skills]
+      [CUnique fm_name false; CFkIndex fm_owner fm_o fm_ps false; CSetIdx fm_roles; CUnique fm_nick true] [];
+    mkSdef fm_px (Some fm_p) true [(fm_x, true)] []
+      [CUnique fm_x true] [];
+    mkSdef fm_pc (Some fm_p) false [(fm_k, true); (fm_code, false)] []
+      [CUnique fm_k true; CUnique fm_code false] [];
+    mkSdef fm_pd (Some fm_p) false [(fm_d, true)] []
+      [CUnique fm_d true] [] ].
+Example c03famXPP_wf_unique_o_title : wf_unique_b c03famXPP_schema fm_o fm_title = true.
+Proof. vm_compute. reflexivity. Qed.
+Example c03famXPP_wf_setidx_o_labels : wf_setidx_b c03famXPP_schema fm_o fm_labels = true.
+Proof. vm_compute. reflexivity. Qed.
+Example c03famXPP_wf_unique_p_name : wf_unique_b c03famXPP_schema fm_p fm_name = true.
+Proof. vm_compute. reflexivity. Qed.
+Example c03famXPP_wf_setidx_p_roles : wf_setidx_b c03famXPP_schema fm_p fm_roles = true.
+Proof. vm_compute. reflexivity. Qed.
+Example c03famXPP_wf_unique_p_nick : wf_unique_b c03famXPP_schema fm_p fm_nick = true.
+Proof. vm_compute. reflexivity. Qed.
+Example c03famXPP_wf_cunique_px_x : wf_cunique_b c03famXPP_schema fm_px fm_x = true.
+Proof. vm_compute. reflexivity. Qed.
+Example c03famXPP_wf_cunique_pc_k : wf_cunique_b c03famXPP_schema fm_pc fm_k = true.
+Proof. vm_compute. reflexivity. Qed.
+Example c03famXPP_wf_cunique_pc_code : wf_cunique_b c03famXPP_schema fm_pc fm_code = true.
+Proof. vm_compute. reflexivity. Qed.
+Example c03famXPP_wf_cunique_pd_d : wf_cunique_b c03famXPP_schema fm_pd fm_d = true.
+Proof. vm_compute. reflexivity. Qed.
+
+Definition c03famPXP_schema : schema :=
+  [ mkSdef fm_p None false [(fm_name, false); (fm_nick, true); (fm_memo, true)] [fm_roles; fm_skills]
+      [CUnique fm_nick true; CSetIdx fm_roles; CUnique fm_name false] [];
+    mkSdef fm_pd (Some fm_p) false [(fm_d, true)] []
+      [CUnique fm_d true] [];
+    mkSdef fm_px (Some fm_p) true [(fm_x, true)] []
+      [CUnique fm_x true] [];
+    mkSdef fm_pc (Some fm_p) false [(fm_k, true); (fm_code, false)] []
+      [CUnique fm_code false; CUnique fm_k true] [] ].
+Example c03famPXP_wf_unique_p_nick : wf_unique_b c03famPXP_schema fm_p fm_nick = true.
+Proof. vm_compute. reflexivity. Qed.
+Example c03famPXP_wf_setidx_p_roles : wf_setidx_b c03famPXP_schema fm_p fm_roles = true.
+Proof. vm_compute. reflexivity. Qed.
+Example c03famPXP_wf_unique_p_name : wf_unique_b c03famPXP_schema fm_p fm_name = true.
+Proof. vm_compute. reflexivity. Qed.
+Example c03famPXP_wf_cunique_pd_d : wf_cunique_b c03famPXP_schema fm_pd fm_d = true.
+Proof. vm_compute. reflexivity. Qed.
+Example c03famPXP_wf_cunique_px_x : wf_cunique_b c03famPXP_schema fm_px fm_x = true.
+Proof. vm_compute. reflexivity. Qed.
+Example c03famPXP_wf_cunique_pc_code : wf_cunique_b c03famPXP_schema fm_pc fm_code = true.
+Proof. vm_compute. reflexivity. Qed.
+Example c03famPXP_wf_cunique_pc_k : wf_cunique_b c03famPXP_schema fm_pc fm_k = true.
+Proof. vm_compute. reflexivity. Qed.
+
+Definition c03famPPX_schema : schema :=
+  [ mkSdef fm_p None false [(fm_name, false); (fm_nick, true); (fm_memo, true)] [fm_roles; fm_skills]
+      [CUnique fm_name false; CSetIdx fm_roles; CUnique fm_nick true] [];
+    mkSdef fm_o None false [(fm_title, false)] [fm_labels]
+      [CFkCascade fm_pd fm_owner CascDelete; CSetIdx fm_labels; CUnique fm_title false] [];
+    mkSdef fm_pc (Some fm_p) false [(fm_k, true); (fm_code, false)] []
+      [CUnique fm_k true; CUnique fm_code false] [];
+    mkSdef fm_pd (Some fm_p) false [(fm_d, true); (fm_owner, false)] []
+      [CUnique fm_d true; CFkIndex fm_owner fm_o fm_pds false] [];
+    mkSdef fm_px (Some fm_p) true [(fm_x, true)] []
+      [CUnique fm_x true] [] ].
+Example c03famPPX_wf_unique_p_name : wf_unique_b c03famPPX_schema fm_p fm_name = true.
+Proof. vm_compute. reflexivity. Qed.
+Example c03famPPX_wf_setidx_p_roles : wf_setidx_b c03famPPX_schema fm_p fm_roles = true.
+Proof. vm_compute. reflexivity. Qed.
+Example c03famPPX_wf_unique_p_nick : wf_unique_b c03famPPX_schema fm_p fm_nick = true.
+Proof. vm_compute. reflexivity. Qed.
+Example c03famPPX_wf_setidx_o_labels : wf_setidx_b c03famPPX_schema fm_o fm_labels = true.
+Proof. vm_compute. reflexivity. Qed.
+Example c03famPPX_wf_unique_o_title : wf_unique_b c03famPPX_schema fm_o fm_title = true.
+Proof. vm_compute. reflexivity. Qed.
+Example c03famPPX_wf_cunique_pc_k : wf_cunique_b c03famPPX_schema fm_pc fm_k = true.
+Proof. vm_compute. reflexivity. Qed.
+Example c03famPPX_wf_cunique_pc_code : wf_cunique_b c03famPPX_schema fm_pc fm_code = true.
+Proof. vm_compute. reflexivity. Qed.
+Example c03famPPX_wf_cunique_pd_d : wf_cunique_b c03famPPX_schema fm_pd fm_d = true.
+Proof. vm_compute. reflexivity. Qed.
+Example c03famPPX_wf_cunique_px_x : wf_cunique_b c03famPPX_schema fm_px fm_x = true.
+Proof. vm_compute. reflexivity. Qed.
+
+Definition c03famXPs_schema : schema :=
+  [ mkSdef fm_p None false [(fm_name, false); (fm_nick, true); (fm_memo, true)] [fm_roles; fm_skills]
+      [CUnique fm_name false; CSetIdx fm_roles; CUnique fm_nick true] [];
+    mkSdef fm_px (Some fm_p) true [(fm_x, true)] []
+      [CUnique fm_x true] [];
+    mkSdef fm_pc (Some fm_p) false [(fm_k, true); (fm_code, false)] []
+      [CSetIdx fm_skills; CUnique fm_k true; CUnique fm_code false] [] ].
+Example c03famXPs_wf_unique_p_name : wf_unique_b c03famXPs_schema fm_p fm_name = true.
+Proof. vm_compute. reflexivity. Qed.
+Example c03famXPs_wf_setidx_p_roles : wf_setidx_b c03famXPs_schema fm_p fm_roles = true.
+Proof. vm_compute. reflexivity. Qed.
+Example c03famXPs_wf_unique_p_nick : wf_unique_b c03famXPs_schema fm_p fm_nick = true.
+Proof. vm_compute. reflexivity. Qed.
+Example c03famXPs_wf_cunique_px_x : wf_cunique_b c03famXPs_schema fm_px fm_x = true.
+Proof. vm_compute. reflexivity. Qed.
+(* set index pc.skills is owned by a child store: outside wf_setidx_b (it demands a root store), see the note below *)
+Example c03famXPs_wf_cunique_pc_k : wf_cunique_b c03famXPs_schema fm_pc fm_k = true.
+Proof. vm_compute. reflexivity. Qed.
+Example c03famXPs_wf_cunique_pc_code : wf_cunique_b c03famXPs_schema fm_pc fm_code = true.
+Proof. vm_compute. reflexivity. Qed.
+
+(* END generated by storageharness store_c03f_coq *)
+
+(* The set index pc.skills of c03famXPs is owned by a CHILD store (over a string list of the parent).  wf_setidx_b demands
+   a root store, so set_index_mirrors does not speak about it; the check evaluates the statement of the property text for
+   it (rows exactly for the entities that live in pc, under exactly the members of their list) on the implementation's
+   facts and compares them with the machine's on every run. *)
+Example c03famXPs_child_set_index_outside_wf : wf_setidx_b c03famXPs_schema fm_pc fm_skills = false.
+Proof. vm_compute. reflexivity. Qed.
+
+(* Non-vacuity: in the machine a delete takes the index entries of EVERY store of the family with it, whichever store the
+   entity was created through and whichever store the delete is issued through - also when an extended sibling is
+   registered before the child store that holds the entity. *)
+Definition fam_mk (s i : name) : op :=
+  OCreate s i false [(fm_name, Some [110]); (fm_nick, Some [105]); (fm_memo, None); (fm_k, Some [107]); (fm_code, Some [99]); (fm_x, Some [120])]
+    [(fm_roles, [[114]; [115]]); (fm_skills, [[116]])].
+Definition fam_all_indexes (st : state) : list (list (str * id)) * list (list (str * list id)) :=
+  ([uidx st fm_p fm_name; uidx st fm_p fm_nick; uidx st fm_p fm_k; uidx st fm_p fm_code; uidx st fm_p fm_x],
+   [sidx st fm_p fm_roles; sidx st fm_p fm_skills]).
+Example fam_xps_create_through_plain_child_fills :
+  fam_all_indexes (run_txs c03famXPs_schema 8 st_empty [mkTx false [] [fam_mk fm_pc [97]] false])
+  = ([[([110], [97])]; [([105], [97])]; [([107], [97])]; [([99], [97])]; []],
+     [[([114], [[97]]); ([115], [[97]])]; [([116], [[97]])]]).
+Proof. vm_compute. reflexivity. Qed.
+Example fam_xps_delete_through_any_store_empties :
+  forallb (fun through => forallb (fun del =>
+      match fam_all_indexes (run_txs c03famXPs_schema 8 st_empty
+              [mkTx false [] [fam_mk through [97]] false; mkTx false [] [ODelete del [97]] false]) with
+      | ([[]; []; []; []; []], [[]; []]) => true
+      | _ => false
+      end) [fm_p; fm_px; fm_pc]) [fm_p; fm_px; fm_pc] = true.
+Proof. vm_compute. reflexivity. Qed.
+Example fam_pxp_delete_through_any_store_empties :
+  forallb (fun through => forallb (fun del =>
+      match fam_all_indexes (run_txs c03famPXP_schema 8 st_empty
+              [mkTx false [] [fam_mk through [97]] false; mkTx false [] [ODelete del [97]] false]) with
+      | ([[]; []; []; []; []], [[]; []]) => true
+      | _ => false
+      end) [fm_p; fm_pd; fm_px; fm_pc]) [fm_p; fm_pd; fm_px; fm_pc] = true.
+Proof. vm_compute. reflexivity. Qed.
+(* ... and the values are free again: the same entity can be created once more through the child store *)
+Example fam_xp_recreate_after_delete_commits :
+  match run_tx c03famXP_schema 8
+          (run_txs c03famXP_schema 8 st_empty [mkTx false [] [fam_mk fm_pc [97]] false; mkTx false [] [ODelete fm_p [97]] false])
+          (mkTx false [] [fam_mk fm_pc [98]] false) with
+  | (rs, committed, _, _) => (rs, committed)
+  end = ([None], true).
+Proof. vm_compute. reflexivity. Qed.
